@@ -61,4 +61,98 @@ theorem keepAllList_eq (f : Val → Option Val) (xs : List Val) : keepAllList f 
   unfold keepAllList
   exact (keepLoop_spec f xs xs.length xs 0 0 (Nat.le_refl _) (Nat.zero_le _) rfl rfl (by simp) (by omega)).1
 
+/-! ### predicates with memory -/
+
+theorem filterMapS_append {σ : Type} (f : σ → Val → σ × Option Val) (s : σ) (a b : List Val) :
+    filterMapS f s (a ++ b) =
+      ((filterMapS f s a).1 ++ (filterMapS f (filterMapS f s a).2 b).1, (filterMapS f (filterMapS f s a).2 b).2) := by
+  induction a generalizing s with
+  | nil => simp [filterMapS]
+  | cons x a ih =>
+    simp only [List.cons_append, filterMapS]
+    rcases hf : f s x with ⟨s', _ | y⟩
+    · simp only [ih s']
+    · simp only [ih s', List.cons_append]
+
+/-- the in-place loop with a stateful predicate computes the stateful `filterMap`: the same
+elements, written in the same order, the predicate asked exactly once per element front to
+back (its final state is the plain-list reading's final state) -/
+theorem keepLoopS_spec {σ : Type} (f : σ → Val → σ × Option Val) (s0 : σ) (xs : List Val) :
+    ∀ (fuel : Nat) (s : σ) (data : List Val) (r wr : Nat),
+      wr ≤ r → r ≤ xs.length → data.length = xs.length → data.drop r = xs.drop r →
+      data.take wr = (filterMapS f s0 (xs.take r)).1 → s = (filterMapS f s0 (xs.take r)).2 → xs.length - r ≤ fuel →
+      (keepLoopS f fuel s data r wr).1.take (keepLoopS f fuel s data r wr).2.1 = (filterMapS f s0 xs).1 ∧
+      (keepLoopS f fuel s data r wr).2.2 = (filterMapS f s0 xs).2 ∧
+      (keepLoopS f fuel s data r wr).1.length = xs.length := by
+  intro fuel
+  induction fuel with
+  | zero =>
+    intro s data r wr _ hr hlen _ htake hs hfuel
+    have : r = xs.length := by omega
+    subst this
+    simp only [keepLoopS]
+    simp only [List.take_length] at htake hs
+    exact ⟨htake, hs, hlen⟩
+  | succ fuel ih =>
+    intro s data r wr hwr hr hlen hdrop htake hs hfuel
+    simp only [keepLoopS]
+    cases hx : data[r]? with
+    | none =>
+      have : xs.length ≤ r := by
+        have := List.getElem?_eq_none_iff.mp hx; omega
+      have : r = xs.length := by omega
+      subst this
+      simp only [List.take_length] at htake hs
+      exact ⟨htake, hs, hlen⟩
+    | some x =>
+      have hrlt : r < xs.length := by
+        have := (List.getElem?_eq_some_iff.mp hx).1; omega
+      have hxs : xs[r]? = some x := by
+        have h1 : (data.drop r)[0]? = some x := by rw [List.getElem?_drop]; simpa using hx
+        rw [hdrop, List.getElem?_drop] at h1
+        simpa using h1
+      have htk : xs.take (r+1) = xs.take r ++ [x] := by
+        rw [List.take_succ, hxs]; rfl
+      have hstep := filterMapS_append f s0 (xs.take r) [x]
+      rw [← htk, ← hs] at hstep
+      rcases hf : f s x with ⟨s', _ | y⟩
+      · simp only [hf]
+        have hsx : filterMapS f s [x] = ([], s') := by simp [filterMapS, hf]
+        rw [hsx] at hstep
+        apply ih s' data (r+1) wr (by omega) (by omega) hlen
+        · have : data.drop (r+1) = (data.drop r).drop 1 := by simp [List.drop_drop]
+          rw [this, hdrop]; simp [List.drop_drop]
+        · rw [hstep]; simpa using htake
+        · rw [hstep]
+        · omega
+      · simp only [hf]
+        have hsx : filterMapS f s [x] = ([y], s') := by simp [filterMapS, hf]
+        rw [hsx] at hstep
+        apply ih s' (data.set wr y) (r+1) (wr+1) (by omega) (by omega) (by simp [hlen])
+        · rw [List.drop_set_of_lt (by omega)]
+          have : data.drop (r+1) = (data.drop r).drop 1 := by simp [List.drop_drop]
+          rw [this, hdrop]; simp [List.drop_drop]
+        · rw [hstep, List.take_succ, List.take_set_of_le (Nat.le_refl _), htake]
+          have : wr < data.length := by omega
+          simp [List.getElem?_set_self this]
+        · rw [hstep]
+        · omega
+
+/-- **keep_all with a predicate that remembers**: exactly what asking the predicate once per
+element, front to back, on a plain list keeps -/
+theorem keepAllListS_eq {σ : Type} (f : σ → Val → σ × Option Val) (s : σ) (xs : List Val) :
+    keepAllListS f s xs = (filterMapS f s xs).1 := by
+  unfold keepAllListS
+  exact (keepLoopS_spec f s xs xs.length s xs 0 0 (Nat.le_refl _) (Nat.zero_le _) rfl rfl
+    (by simp [filterMapS]) (by simp [filterMapS]) (by omega)).1
+
+/-- a predicate without memory is the special case of the unit state -/
+theorem filterMapS_unit (g : Val → Option Val) (xs : List Val) :
+    (filterMapS (fun (_ : Unit) x => ((), g x)) () xs).1 = xs.filterMap g := by
+  induction xs with
+  | nil => rfl
+  | cons x xs ih =>
+    simp only [filterMapS, List.filterMap_cons]
+    cases g x <;> simp [ih]
+
 end Treepath
